@@ -27,11 +27,19 @@ namespace riddle
                     return mk_string_token(str);
                 case '\\':
                     // read escaped char..
-                    str += next_char();
+                    if ((ch = next_char()) == -1)
+                    {
+                        error("unterminated string literal..");
+                        return nullptr;
+                    }
+                    str += ch;
                     break;
                 case '\r':
                 case '\n':
                     error("newline in string literal..");
+                    return nullptr;
+                case -1:
+                    error("unterminated string literal..");
                     return nullptr;
                 default:
                     str += ch;
